@@ -7,6 +7,7 @@ import (
 	"go/token"
 	"sort"
 	"strings"
+	"time"
 
 	"verifengine/ex"
 	"verifengine/fixture"
@@ -23,15 +24,18 @@ func init() {
 			"break/continue/goto with and without labels, labeled loops/switches/blocks/empty statements; nesting depth D, <=2 statements per block; plus a label family: 0-2 labels defined 0-2 times, used by goto/break/continue or not, in function and closure scopes. " +
 			"Only bodies whose reference text has no go/types error other than the three studied diagnostics are judged. Oracle: multiset of builder diagnostics {missing return, label defined and not used, label already defined} == go/types {missing return, label declared and not used, label already declared} on the reference text. " +
 			"non-trivial = body with >=1 compound statement; distinct = distinct reference text",
-		Assumptions: []string{"go/types 1.23.5 terminating-statement and label analysis is the specification", "labels are created up front per function body, as a compiler front end does"},
-		Run:         run,
-		Replay:      replay,
+		Assumptions:    []string{"go/types 1.23.5 terminating-statement and label analysis is the specification", "labels are created up front per function body, as a compiler front end does"},
+		ThoroughBudget: 80 * time.Minute,
+		Run:            run,
+		Replay:         replay,
 	})
 }
 
 var (
-	ret   = func() *st.S { return &st.S{K: st.KReturn, E: []*ex.E{ex.Lit(token.INT, "1")}} }
-	pan   = func() *st.S { return &st.S{K: st.KExpr, E: []*ex.E{ex.Call(ex.Uni("panic"), ex.Lit(token.STRING, `"x"`))}} }
+	ret = func() *st.S { return &st.S{K: st.KReturn, E: []*ex.E{ex.Lit(token.INT, "1")}} }
+	pan = func() *st.S {
+		return &st.S{K: st.KExpr, E: []*ex.E{ex.Call(ex.Uni("panic"), ex.Lit(token.STRING, `"x"`))}}
+	}
 	call  = func() *st.S { return &st.S{K: st.KExpr, E: []*ex.E{ex.Call(ex.Obj("FN"))}} }
 	cond  = func() *ex.E { return ex.Obj("VBool") }
 	brk   = func(l string) *st.S { return &st.S{K: st.KBreak, Label: l} }
